@@ -15,6 +15,7 @@ reference-model value (`recipe_model`) are derived:
 
   ["z"] null   ["u"] undefined   ["b",0|1]   ["n", numkey, "i"|"f"]   ["s", str]
   ["f"] function   ["a",[items]]   ["o",[[key,item],...]]  (unique keys)
+  ["f", kind]  a callable of the named kind of CALLABLES (never below a "toJSON" key)
   ["tojson", item, by_key, [[key,item],...]]     object with a toJSON method
   ["inh", own_pairs, proto_pairs]                own + inherited enumerable properties
   ["arrx", [items], extra_pairs]                 array with extra named properties
@@ -352,6 +353,8 @@ def recipe_js(r):
     if t == "s":
         return P.js_string_literal(r[1])
     if t == "f":
+        if len(r) > 1:
+            return "(%s)" % CALLABLE_JS[r[1]]
         return "function(q){ return q; }"
     if t == "a":
         return "[" + ", ".join(recipe_js(x) for x in r[1]) + "]"
@@ -376,6 +379,179 @@ def recipe_js(r):
                 parts.append("%s: %s" % (P.js_string_literal(k), recipe_js(x)))
         return "({" + ", ".join(parts) + "})"
     raise KeyError(t)
+
+
+# ------------------------------------------------------------------ callables
+# Every kind of value whose typeof is "function" in the engine.  (kind name, JavaScript expression);
+# the host:* globals are installed by host_callables().  A kind whose expression is not a function
+# in the engine under test is dropped at run time (checks/c19.py available_callables).
+_CTORS = ["Object", "Array", "Number", "String", "Boolean", "Function", "Error", "TypeError", "RangeError",
+          "SyntaxError", "ReferenceError", "EvalError", "URIError", "RegExp", "ArrayBuffer", "Uint8Array", "Int8Array",
+          "Uint8ClampedArray", "Int16Array", "Uint16Array", "Int32Array", "Uint32Array", "Float32Array", "Float64Array"]
+_NATIVES = ["Math.max", "Math.floor", "parseInt", "parseFloat", "isNaN", "isFinite", "eval", "[].push", "''.slice",
+            "JSON.parse", "JSON.stringify", "Object.keys", "Object.create", "Object.assign", "Object.defineProperty",
+            "Array.isArray", "Number.isInteger", "Number.parseFloat", "String.fromCharCode", "Date.now",
+            "Object.prototype.hasOwnProperty", "Object.prototype.toString", "Array.prototype.map",
+            "Array.prototype.forEach", "Error.prototype.toString", "(function(){}).call", "(function(){}).apply",
+            "(function(){}).bind", "/a/.test", "(1).toFixed", "console.log", "new Uint8Array(1).set"]
+CALLABLES = [
+    ("script:expression", "function(q){ return q; }"),
+    ("script:named-expression", "function named(a){ return a; }"),
+    ("script:declaration", "(function(){ function d(a){ return a; } return d; })()"),
+    ("script:closure", "(function(){ var n = 0; return function(){ return n++; }; })()"),
+    ("script:arrow", "() => 1"),
+    ("script:arrow-param", "a => a"),
+    ("script:method", "({m(){ return 1; }}).m"),
+    ("script:getter", "Object.getOwnPropertyDescriptor({get a(){ return 1; }}, 'a').get"),
+    ("script:new-Function", "new Function('a', 'return a')"),
+    ("script:with-properties", "(function(){ var f = function(){}; f.x = 1; f.prototype.y = 2; return f; })()"),
+    ("bound:script", "(function(){ return this; }).bind(null)"),
+    ("bound:arrow", "(() => 1).bind(null)"),
+    ("bound:native", "Math.max.bind(null, 1)"),
+    ("bound:host", "hostfn.bind(null)"),
+    ("bound:bound", "Math.max.bind(null, 1).bind(null, 2)"),
+] + [("native:" + e, e) for e in _NATIVES] + [("ctor:" + e, e) for e in _CTORS] + [
+    ("ctor:via-array", "[].constructor"),
+    ("ctor:via-object", "({}).constructor"),
+    ("ctor:via-error", "new Error('x').constructor"),
+    ("ctor:via-regexp", "/a/.constructor"),
+    ("ctor:via-prototype", "Object.prototype.constructor"),
+    ("host:lambda", "hostfn"),
+    ("host:def", "hostdef"),
+    ("host:builtin", "hostabs"),
+    ("host:partial", "hostpartial"),
+    ("host:callable-object", "hostobj"),
+    ("host:bound-method", "hostmeth"),
+    ("host:class", "hostcls"),
+]
+CALLABLE_JS = dict(CALLABLES)
+
+
+def _hostdef(a=0):
+    return a
+
+
+class _HostCallable:
+    def __call__(self, *a):
+        return 1
+
+    def meth(self, *a):
+        return 2
+
+
+def host_callables():
+    """Globals for Context.set: every flavour of Python callable."""
+    import functools
+
+    return {"hostfn": lambda *a: 1, "hostdef": _hostdef, "hostabs": abs, "hostpartial": functools.partial(_hostdef, 1),
+            "hostobj": _HostCallable(), "hostmeth": _HostCallable().meth, "hostcls": _HostCallable}
+
+
+def recipe_map_functions(r, fn, under_tojson=False):
+    """Copy of the recipe with every function leaf that is never *called* (not the value of a
+    "toJSON" key) replaced by fn(leaf)."""
+    t = r[0]
+    if t == "f":
+        return r if under_tojson else fn(r)
+    m = recipe_map_functions
+    if t == "a":
+        return ["a", [m(x, fn) for x in r[1]]]
+    if t == "o":
+        return ["o", [[k, m(x, fn, k == "toJSON")] for k, x in r[1]]]
+    if t == "tojson":
+        return ["tojson", m(r[1], fn), r[2], [[k, m(x, fn, k == "toJSON")] for k, x in r[3]]]
+    if t == "inh":
+        return ["inh", [[k, m(x, fn, k == "toJSON")] for k, x in r[1]], [[k, m(x, fn, k == "toJSON")] for k, x in r[2]]]
+    if t == "arrx":
+        return ["arrx", [m(x, fn) for x in r[1]], [[k, m(x, fn, k == "toJSON")] for k, x in r[2]]]
+    if t == "oget":
+        return ["oget", [[p[0], m(p[1], fn), p[2]] for p in r[1]]]
+    return r
+
+
+def callable_templates(F):
+    """Positions of one callable F (a recipe leaf): root, array element, property value, nested,
+    behind toJSON / getter / prototype / extra array property.  -> [(name, recipe, replacer, indent)]"""
+    one, s, z = ["n", "1.0", "i"], ["s", "s"], ["z"]
+    plain = [
+        ("root", F),
+        ("array-only", ["a", [F]]),
+        ("array-first", ["a", [F, one]]),
+        ("array-middle", ["a", [one, F, s]]),
+        ("array-last", ["a", [z, F]]),
+        ("array-twice", ["a", [F, F]]),
+        ("object-only", ["o", [["a", F]]]),
+        ("object-first", ["o", [["a", F], ["b", one]]]),
+        ("object-last", ["o", [["b", one], ["a", F]]]),
+        ("object-twice", ["o", [["a", F], ["b", F]]]),
+        ("nested-array", ["a", [["a", [F]], ["o", [["k", F]]]]]),
+        ("nested-object", ["o", [["o", ["o", [["p", ["a", [["n", "0.0", "i"], F]]]]]]]]),
+        ("nested-deep", ["a", [["o", [["x", ["a", [["o", [["d", F], ["c", one]]]]]]]]]]),
+        ("inherited", ["inh", [["a", F], ["b", one]], [["c", F]]]),
+        ("array-extra-property", ["arrx", [F, one], [["x", F]]]),
+        ("toJSON-result-root", ["tojson", F, 0, []]),
+        ("toJSON-result-element", ["a", [["tojson", F, 0, [["b", one]]], one]]),
+        ("toJSON-result-property", ["o", [["a", ["tojson", F, 0, []]], ["b", one]]]),
+        ("getter-result", ["oget", [["g", F, True], ["h", one, False]]]),
+    ]
+    out = [(n, r, "none", "none") for n, r in plain]
+    mixed = ["o", [["a", F], ["b", ["a", [F, one]]]]]
+    out += [("replacer-identity", mixed, "fn-identity", "none"), ("replacer-list", mixed, "arr-ab", "none"),
+            ("indent", mixed, "none", "2"), ("replacer-identity-root", F, "fn-identity", "none")]
+    return out
+
+
+# ------------------------------------------------------------------ wide documents
+_WIDE_MEMBERS = {
+    "empty-array": ["[]"], "empty-object": ["{}"], "empty-spaced": ["[ ]", "{ }", "[\n]", "{\t}"],
+    "empty-mixed": ["[]", "{}", "[]", "{}", "[ ]", "{ }"],
+    "nonempty": ["[0]", '{"a":1}', "[[1]]", '{"k":{"j":0}}', '[{"a":null}]', '["s",true]'],
+    "nested-empty": ["[[]]", '{"k":{}}', "[{}]", '{"k":[]}', "[[],[]]", '{"a":[],"b":{}}', "[[[]]]"],
+    "mixed": ["[]", "{}", "[0]", '{"a":1}', "[[]]", '{"k":{}}', "0", '""', "null", "[{},[]]", "[ ]", "true", "-1.5e3"],
+    "scalars": ["0", '""', "null", "true", '"a"', "-1.5e3"],
+}
+WIDE_MEMBER_KINDS = sorted(_WIDE_MEMBERS)
+_WIDE_COUNTS = [100, 150, 250, 350, 399, 400, 401, 402, 450, 500, 640, 800, 1000, 1023, 1025, 1300, 1700, 2000, 2500, 3000]
+
+
+def wide_text(p):
+    """The JSON text of the wide-document parameters p = {"n", "members", "pick", "outer", "group", "wrap", "sep"}:
+    n sibling members (cycled / pseudo-randomly picked from a palette) in one array or object, or in groups of
+    `group` members, below `wrap` single-child wrappers."""
+    pal = _WIDE_MEMBERS[p["members"]]
+    n, pick, sep = p["n"], p["pick"], p["sep"]
+
+    def member(i):
+        return pal[(i * pick + (i * i) // 7) % len(pal)]
+
+    def container(kind, items):
+        if kind == "array":
+            return "[" + ("," + sep).join(items) + "]"
+        return "{" + ("," + sep).join('"k%d":%s%s' % (j, sep, x) for j, x in enumerate(items)) + "}"
+
+    items = [member(i) for i in range(n)]
+    if p["group"]:
+        g = p["group"]
+        inner = "object" if p["outer"] == "array" else "array"
+        items = [container(inner, items[i : i + g]) for i in range(0, n, g)]
+    text = container(p["outer"], items)
+    for w in p["wrap"]:
+        text = "[%s]" % text if w == "array" else '{"w":%s}' % text
+    return text
+
+
+def wide_params(rnd):
+    """Selection of wide-document parameters from a random.Random."""
+    n = rnd.choice(_WIDE_COUNTS) if rnd.randrange(3) else rnd.randrange(100, 3001)
+    return {
+        "n": n,
+        "members": rnd.choice(WIDE_MEMBER_KINDS),
+        "pick": rnd.randrange(1, 7),
+        "outer": rnd.choice(["array", "object"]),
+        "group": rnd.choice([0, 0, 0, 2, 7, 50, 400]),
+        "wrap": [rnd.choice(["array", "object"]) for _ in range(rnd.choice([0, 0, 1, 2]))],
+        "sep": rnd.choice(["", "", " ", "\n"]),
+    }
 
 
 # ------------------------------------------------------------------ (ii) texts
